@@ -182,6 +182,16 @@ def known_map_key_line_break(sc, g1, g2, what):
     return False
 
 
+def known_nil_pointer_with_default(sc, g1, g2, what):
+    """a pointer option was nil before the write and holds the value of its default tag after write + read + defaults"""
+    import re
+    m = re.match(r"option \S+ \(fid (\d+), type \('ptr', .*\) was pn, is p\(", what)
+    if not m:
+        return False
+    ty_tag = _leaf_specs(sc).get(int(m.group(1)))
+    return bool(ty_tag) and b'default:"' in ty_tag[1]
+
+
 def _finding_text(match):
     for f in lib.known_findings("C12"):
         if f.get("match") == match:
@@ -189,7 +199,8 @@ def _finding_text(match):
     return None
 
 
-KNOWN = [(known_choice_canonical_text, "choice-canonical-text"), (known_map_key_line_break, "map-key-line-break")]
+KNOWN = [(known_choice_canonical_text, "choice-canonical-text"), (known_map_key_line_break, "map-key-line-break"),
+         (known_nil_pointer_with_default, "nil-pointer-with-default")]
 
 
 def run(rep, tier, rng, replay=None):
